@@ -18,7 +18,7 @@ def _load(pid):
 
 # property -> harness names whose FIRST quick configuration is re-run here (None = all harnesses of that property)
 PICK = {
- 'C03': ['reshape3', 'flatten3', 'transpose3', 'moveaxis3_list', 'swapaxes3', 'expand_dims2', 'squeeze3', 'atleast_nd2', 'flip3_list'],
+ 'C03': ['reshape3', 'flatten3', 'transpose3', 'transpose3_neg', 'moveaxis3_list', 'swapaxes3', 'expand_dims2', 'squeeze3', 'atleast_nd2', 'flip3_list'],
  'C04': ['tile', 'repeat', 'repeat_each', 'roll', 'roll_axes', 'take', 'concatenate', 'stack', 'pad', 'sliding_axis', 'tril', 'diagonal', 'expand', 'resize', 'compress', 'where', 'split'],
  'C05': ['view1', 'viewfam', 'viewdyn'],
  'C06': ['vbt', 'vba'],
